@@ -26,6 +26,10 @@ type histObserver struct {
 }
 
 func (h *histObserver) After(w *world.World, op sim.Op, ds *world.Doc, o *world.Obs) {
+	if op.K == "savefail" && o.Res == "nil-despite-failed-call" {
+		w.Fail("save-nil-on-failed-call", "file-system-call-failed", "a file-system call inside Save failed (injected) and Save returned nil")
+		return
+	}
 	if o.Panic != "" {
 		ds.Dead = true
 		w.Stats.Probe("library_panic")
@@ -91,6 +95,9 @@ func sprinkleSaves(r *sim.Rand, ops []sim.Op, d int, every int, restartP float64
 	for i, op := range ops {
 		out = append(out, op)
 		if i == len(ops)-1 || r.Intn(every) == 0 {
+			if r.Chance(0.12) { // a Save that fails at its k-th file-system call (must change nothing)
+				out = append(out, sim.Op{K: "savefail", D: d, I: []int{r.Intn(2)}})
+			}
 			switch {
 			case r.Chance(procRestartP):
 				out = append(out, sim.Op{K: "prestart", D: d, I: []int{r.Intn(2), r.Intn(3)}})
